@@ -11,60 +11,46 @@ SH = "thejoker.samples_helpers"
 
 def check_dispatch(ctx):
     R = "C12-DISPATCH"
-    ctx.rule(R, "read_batch dispatches on the selector type: tuple -> read_batch(slice(*t)), slice -> read_batch_slice, int -> read_random_batch(rng=rng), "
-                "ndarray -> read_batch_idx, anything else raises; every branch forwards file, columns and units; the random reader draws "
-                "choice(n_rows, size, replace=False) from its generator and reads those rows through read_batch_idx.")
+    ctx.rule(R, "read_batch dispatches on the selector type (decided on path conditions, so if/elif chains, early returns and nested forms are equivalent): "
+                "tuple -> read_batch(slice(*t)), slice -> read_batch_slice, int -> read_random_batch(rng=rng), ndarray -> read_batch_idx, anything else raises; every "
+                "branch forwards file, columns and units and returns the reader's result unchanged; the random reader draws choice(n_rows, size, replace=False) from "
+                "its generator and reads those rows through read_batch_idx.")
     fn = ctx.prog.func(UT, "read_batch", R)
+    flow = A.Flow(fn)
     want = {"tuple": "read_batch", "slice": "read_batch_slice", "int": "read_random_batch", "np.ndarray": "read_batch_idx"}
+    lit = {t: "isinstance(slice_or_idx, %s)" % t for t in want}
+    events = A.terminal_events(fn, flow)
+    rets = [(A.term_strings(pc), v, n) for k, pc, v, n in events if k == "return"]
+    raises = [(A.term_strings(pc), n) for k, pc, v, n in events if k == "raise"]
     seen = {}
-    t = None
-    for s in fn.body:
-        if isinstance(s, ast.If):
-            t = s
-            break
-    chain = []
-    while isinstance(t, ast.If):
-        chain.append(t)
-        t = t.orelse[0] if len(t.orelse) == 1 and isinstance(t.orelse[0], ast.If) else (t.orelse or None)
-        if isinstance(t, list):
-            last_else = t
-            break
-    else:
-        last_else = None
-    for br in chain:
-        test = br.test
-        if not (isinstance(test, ast.Call) and A.call_name(test) == "isinstance" and canon(test.args[0]) == "slice_or_idx"):
-            ctx.undecided(R, br, "dispatch test", "branch test `%s` is not isinstance(slice_or_idx, T)" % A.unparse(test))
-            continue
-        ty = canon(test.args[1])
-        calls = [c for s in br.body for c in A.calls_in(s) if (A.call_name(c) or "").startswith("read_")]
-        if ty not in want:
-            ctx.undecided(R, br, "dispatch type %s" % ty, "unexpected selector type")
-            continue
-        ok = len(calls) == 1 and A.call_name(calls[0]) == want[ty]
-        ctx.check(R, br, "%s selector -> %s" % (ty, want[ty]), ok, "branch calls %s" % [A.call_name(c) for c in calls], key="branch:" + ty)
+    for ty, callee in want.items():
+        # return events a selector of type `ty` can reach: not excluded by a negative literal, and not guarded by another type's positive literal
+        reach = [(pc, v, n) for pc, v, n in rets if ("-" + lit[ty]) not in pc and not any(("+" + lit[o]) in pc for o in want if o != ty)]
+        pos = [e for e in reach if ("+" + lit[ty]) in e[0]]
+        reach = pos or reach
+        ok = bool(reach) and all(isinstance(v, ast.Call) and A.call_name(v) == callee for pc, v, n in reach)
+        ctx.check(R, reach[0][2] if reach else fn, "%s selector -> %s" % (ty, callee), ok,
+                  "a %s selector reaches %s" % (ty, [A.unparse(v)[:50] if v is not None else None for pc, v, n in reach] or "no return"), key="branch:" + ty)
         if not ok:
             continue
-        c = calls[0]
+        c = reach[0][1]
         seen[ty] = c
-        ctx.check(R, c, "%s branch forwards file, columns, units" % ty,
+        ctx.check(R, reach[0][2], "%s branch forwards file, columns, units" % ty,
                   canon(c.args[0]) == "prior_samples_file" and canon(c.args[1]) == "columns" and canon(A.get_arg(c, None, "units") or ast.Constant(value=None)) == "units",
                   "call `%s` does not forward (prior_samples_file, columns, units=units)" % A.unparse(c)[:80], key="fw:" + ty)
         sel = c.args[2] if len(c.args) > 2 else A.get_arg(c, None, "slice_or_idx") or A.get_arg(c, None, "idx") or A.get_arg(c, None, "size")
         if ty == "tuple":
-            ctx.check(R, c, "tuple (a, b) becomes slice(a, b)", sel is not None and canon(sel) == canon(parse("slice(*slice_or_idx)")),
+            ctx.check(R, reach[0][2], "tuple (a, b) becomes slice(a, b)", sel is not None and canon(sel) == canon(parse("slice(*slice_or_idx)")),
                       "tuple selector is turned into `%s`" % (A.unparse(sel) if sel is not None else None), key="tuple-slice")
         else:
-            ctx.check(R, c, "%s selector passed through unchanged" % ty, sel is not None and canon(sel) == "slice_or_idx", "selector passed as `%s`" % (A.unparse(sel) if sel is not None else None), key="sel:" + ty)
+            ctx.check(R, reach[0][2], "%s selector passed through unchanged" % ty, sel is not None and canon(sel) == "slice_or_idx", "selector passed as `%s`" % (A.unparse(sel) if sel is not None else None), key="sel:" + ty)
         if ty == "int":
-            ctx.check(R, c, "random branch forwards rng", canon(A.get_arg(c, None, "rng") or ast.Constant(value=None)) == "rng", "rng is not forwarded to read_random_batch", key="rng")
-        # result must be returned
+            ctx.check(R, reach[0][2], "random branch forwards rng", canon(A.get_arg(c, None, "rng") or ast.Constant(value=None)) == "rng", "rng is not forwarded to read_random_batch", key="rng")
     ctx.check(R, fn, "all four selector kinds handled", set(seen) == set(want), "handled kinds: %s" % sorted(seen), key="kinds")
-    ctx.check(R, fn, "any other selector raises", last_else is not None and A.always_raises(last_else), "no raising else-branch for unsupported selectors", key="else")
-    flow = A.Flow(fn)
-    rets = [v for v, s in flow.returns]
-    okret = bool(rets) and all(all(isinstance(l, ast.Call) and (A.call_name(l) or "").startswith("read_") for l in A.strip_ifexp(v)) for v in rets)
-    ctx.check(R, fn, "returns the reader's result unchanged", okret, "return value `%s` is not the reader result" % (A.unparse(rets[0])[:60] if rets else None), key="ret")
+    other = [pc for pc, n in raises if all(("-" + lit[t]) in pc for t in want)]
+    ctx.check(R, fn, "any other selector raises", bool(other), "no raise on the path where the selector is none of tuple / slice / int / ndarray", key="else")
+    okret = bool(rets) and all(isinstance(v, ast.Call) and (A.call_name(v) or "").startswith("read_") for pc, v, n in rets)
+    ctx.check(R, fn, "returns the reader's result unchanged", okret, "a return value is not a reader result: %s" % [A.unparse(v)[:40] for pc, v, n in rets if not (isinstance(v, ast.Call) and (A.call_name(v) or "").startswith("read_"))][:2], key="ret")
     # random reader
     rf = ctx.prog.func(UT, "read_random_batch", R)
     fl = A.Flow(rf)
@@ -280,16 +266,19 @@ def check_refuse(ctx):
     ctx.check(R, first, "append = resize to old+new, write the new rows after the old ones", ok_app, "resize/assignment do not implement concatenation", key="concat")
     # the comparison helper itself
     cf = ctx.prog.func(SH, "_custom_tbl_dtype_compare", R)
-    lens = [s for s in cf.body if isinstance(s, ast.If) and "len(dtype1)" in A.unparse(s.test) and "len(dtype2)" in A.unparse(s.test)]
-    okl = bool(lens) and isinstance(lens[0].body[0], ast.Return) and A.const_value(lens[0].body[0].value) is False
-    loops = [l for l in cf.body if isinstance(l, ast.For)]
-    okl = okl and bool(loops) and lens[0].lineno < loops[0].lineno
-    zipped = bool(loops) and isinstance(loops[0].iter, ast.Call) and A.call_name(loops[0].iter) == "zip"
-    ctx.check(R, cf, "dtype comparison rejects a different number of columns", okl or not zipped,
-              "columns are compared pairwise with zip() without comparing their count: extra or missing columns compare equal", key="colcount")
-    rets = [s for s in A.walk_local(cf) if isinstance(s, ast.Return)]
-    ok_r = any(A.const_value(s.value) is True for s in rets) and sum(A.const_value(s.value) is False for s in rets) >= 4
-    ctx.check(R, cf, "dtype comparison can fail on name/datatype/unit differences", ok_r, "comparison has %d False exits" % sum(A.const_value(s.value) is False for s in rets), key="false-exits")
+    params = A.param_names(cf)
+    zips = [c for c in ast.walk(cf) if isinstance(c, ast.Call) and A.call_name(c) == "zip" and sorted(canon(a) for a in c.args) == sorted(params[:2])]
+    lens = [s for s in A.walk_local(cf) if isinstance(s, ast.If) and A.nnf(s.test) in (A.nnf_of_src("len(%s) != len(%s)" % (params[0], params[1])), A.nnf_of_src("len(%s) != len(%s)" % (params[1], params[0])))]
+    okl = bool(lens) and isinstance(lens[0].body[0], ast.Return) and A.const_value(lens[0].body[0].value) is False and all(lens[0].lineno < z.lineno for z in zips)
+    if not okl:
+        # `return len(a) == len(b) and all(... zip ...)` is the other accepted idiom
+        for r_ in [s for s in A.walk_local(cf) if isinstance(s, ast.Return) and isinstance(s.value, ast.BoolOp) and isinstance(s.value.op, ast.And)]:
+            okl = okl or any(A.nnf(v) in (A.nnf_of_src("len(%s) == len(%s)" % (params[0], params[1])), A.nnf_of_src("len(%s) == len(%s)" % (params[1], params[0]))) for v in r_.value.values)
+    ctx.check(R, cf, "dtype comparison rejects a different number of columns", okl or not zips,
+              "the column descriptions are compared pairwise with zip() without comparing their count: a table with extra or missing columns compares equal and is appended", key="colcount")
+    # the per-column comparison looks at every key of both descriptions
+    keys_ok = any(isinstance(n, ast.Call) and A.call_name(n) == "set" for n in ast.walk(cf)) or any(isinstance(n, ast.BinOp) and isinstance(n.op, ast.BitOr) for n in ast.walk(cf))
+    ctx.check(R, cf, "every key of both column descriptions is compared", keys_ok, "the union of the two key sets is no longer iterated", key="keys", nontrivial=False)
 
 
 def check_paths(ctx):
